@@ -25,7 +25,7 @@ META = {
             'same OCP with v written as constants (two real transcriptions, all x); (iv) call orders of set_value relative to transcription (ground on opti.p and x0)',
     'functions': ['rockit/stage.py:parameter/register_parameter/set_value/_param_value', 'rockit/sampling_method.py:add_parameter/set_parameter/set_value/get_p_control_at/get_p_control_plus_at/get_p_sys',
                   'rockit/direct_method.py:add_parameters/set_parameter/set_value/eval_top'],
-    'bounds': '<=4 parameters of mixed kinds, shapes up to 2x2; MS/SS/DC; N<=3, M<=2 (thorough N<=4); histories of set_value/transcribe of length <=4; values rational',
+    'bounds': '<=4 parameters of mixed kinds, shapes up to 2x2; MS/SS/DC; N<=3, M<=2 (thorough N<=4); histories of set_value/transcribe of length <=5 (including returning to the transcription-time value); values rational',
     'outside': 'bspline parameters (C17); values flow through CasADi\'s numeric Opti store (value-independence of that copy is assumed: routing checked with tagged values); IEEE rounding',
     'assumptions': ['reals for floats; constants identified up to 1e-10', 'variables of the two transcriptions correspond by creation order'],
 }
@@ -111,7 +111,8 @@ def instances(tier, seed):
                 add(kind='nlp', spec=s, cfg=Cfg(method, N=N, M=M, intg=intg or 'rk', grid=g, degree=degree, scheme=scheme))
                 n += 1
     # call orders
-    orders = [['T', 'a2'], ['a2', 'T'], ['T', 'a2', 'pc2'], ['T', 'pc2', 'a2', 'a3'], ['T', 'a2', 'T2'], ['a2', 'T', 'vec2', 'pp2']]
+    orders = [['T', 'a2'], ['a2', 'T'], ['T', 'a2', 'pc2'], ['T', 'pc2', 'a2', 'a3'], ['T', 'a2', 'T2'], ['a2', 'T', 'vec2', 'pp2'],
+              ['T', 'a2', 'a0'], ['T', 'pc2', 'T2', 'pc0'], ['T', 'a2', 'pp2', 'a0', 'pp0']]      # ... and back to the value the problem was transcribed with
     for oi, order in enumerate(orders if tier == 'quick' else orders * 2):
         method = ['MS', 'SS', 'DC'][oi % 3]
         N = 2 + (oi % 2)
@@ -167,6 +168,8 @@ def run_order(item):
         'pc2': ('pc', [[Fr(100 + k) for k in range(N)]]), 'pp2': ('pp', [[Fr(200 + k) for k in range(N + 1)]]),
         'vec2': ('vec', [[Fr(300 + k) for k in range(N)], [Fr(400 + k) for k in range(N)]]),
     }
+    for p_ in spec.params:          # '<name>0' = set the parameter back to its originally declared value
+        newvals[p_.name + '0'] = (p_.name, copy.deepcopy(p_.value))
     s_cur = copy.deepcopy(spec)
     b = declare(s_cur, cfg)
     b.ocp.solver('ipopt')
